@@ -271,11 +271,32 @@ struct Scenario {
     mtl: usize,
 }
 
+/// the trace in the simulator's text format, using every spelling parse_trace accepts: "s" / "sn"
+/// and "r" / "rn", an optional third column, blanks around the time stamp, empty lines, and
+/// lines of padding packets ("sp" / "rp"), which are not part of the base trace
 fn trace_string(t: &[(i64, bool)]) -> String {
-    t.iter()
-        .map(|(us, s)| format!("{},{}", us * unit() * 1000, if *s { "s" } else { "r" }))
-        .collect::<Vec<_>>()
-        .join("\n")
+    let mut out: Vec<String> = Vec::new();
+    for (i, (us, s)) in t.iter().enumerate() {
+        let ns = us * unit() * 1000;
+        let dir = match (*s, i % 5 == 1) {
+            (true, false) => "s",
+            (true, true) => "sn",
+            (false, false) => "r",
+            (false, true) => "rn",
+        };
+        let mut l = if i % 11 == 3 { format!(" {} ,{}", ns, dir) } else { format!("{},{}", ns, dir) };
+        if i % 7 == 2 {
+            l.push_str(",1500");
+        }
+        out.push(l);
+        if i % 13 == 4 {
+            out.push(format!("{},{}", ns, if i % 2 == 0 { "sp" } else { "rp" }));
+        }
+        if i % 17 == 5 {
+            out.push(String::new());
+        }
+    }
+    out.join("\n")
 }
 
 fn run(
